@@ -53,7 +53,11 @@ def run_adoption(desc):
     tr, w = livecases.new_world(first, n_clients=rng.choice((1, 2)))
     try:
         mid = w.add_market_file(livecases.static_market())
-        w.next_book(mid)
+        # after a restart the order stream may speak first: the market is then created from the first order update, its first
+        # market book arrives later
+        book_first = rng.random() < 0.5
+        if book_first:
+            w.next_book(mid)
         ex = w.exchange
         twins = {}
         expected = []
@@ -73,6 +77,11 @@ def run_adoption(desc):
         # a bet of a strategy nobody registered
         ex._new_bet(mid, {"selectionId": 703, "side": "BACK", "orderType": "LIMIT", "handicap": 0, "customerOrderRef": "0123456789abc-111111111111111111", "limitOrder": {"price": 4.0, "size": 3.0, "persistenceType": "LAPSE"}}, None)
         w.snapshot()
+        first_objs = {str(o.bet_id): o for o in (w.market(mid).blotter if w.market(mid) is not None else ())}
+        if not book_first:
+            w.next_book(mid)
+            if rng.random() < 0.5:
+                w.next_book(mid)
         for r_ in range(rng.randint(1, 3)):
             late = livecases.make_strategy("L%d" % r_)
             w.add_strategy(late)
@@ -89,7 +98,9 @@ def run_adoption(desc):
             out.rule("adoption")
             got = [o for o in m.blotter if str(o.bet_id) == str(bet_id)]
             if len(got) != 1 or got[0].trade.strategy is not st or got[0].id != oid:
-                out.v("registered-strategy-bet-not-in-blotter-once", {"late_strategy": st.name.startswith("L"), "count": min(len(got), 2)}, bet_id=bet_id, strategy=st.name)
+                out.v("registered-strategy-bet-not-in-blotter-once", {"late_strategy": st.name.startswith("L"), "count": min(len(got), 2), "book_first": book_first}, bet_id=bet_id, strategy=st.name)
+            elif str(bet_id) in first_objs and got[0] is not first_objs[str(bet_id)]:
+                out.v("adopted-order-replaced-by-another-object", {"book_first": book_first}, bet_id=bet_id, strategy=st.name)
             elif sum(1 for o in m.blotter.strategy_orders(st) if o is got[0]) != 1 or m.blotter.get_order_bet_id(bet_id) is not got[0]:
                 out.v("adopted-order-missing-from-view", {"late_strategy": st.name.startswith("L")}, bet_id=bet_id, strategy=st.name)
         if len(m.blotter) != len(expected):
